@@ -973,6 +973,13 @@ func (s *Stage) finalize(file *finalFile) {
 		s.logDebug("Ignoring invalid (final):", file.name, existingState)
 		return
 	}
+	if current := s.fromCache(file.path); current != nil && current.hash != file.hash {
+		// A newer version of this file was received and validated while this
+		// one was waiting; the staged body is the newer version's, so logging
+		// and delivering it under this version's hash would be wrong
+		s.logDebug("Ignoring superseded version (final):", file.name, file.hash)
+		return
+	}
 
 	if file.wait != nil {
 		file.wait.Stop()
